@@ -24,12 +24,19 @@ val = st.one_of(st.integers(0, 3).map(float), st.integers(-2, 2), st.floats(-100
     lambda x: round(x, 3)))
 
 
+# costs that coincide in their first seven decimals (the stored signed costs are rounded there, the costs are not)
+near = st.builds(lambda b, k: b + k * 1e-8, st.integers(0, 2).map(float), st.integers(-4, 4))
+
+
 @st.composite
 def record(draw):
     n = draw(st.integers(1, 3))
     m = draw(st.integers(1, 3))
     crit = [draw(st.sampled_from(["minimize", "maximize", None])) for _ in range(m)]
     k = draw(st.integers(0, 30))
+    cval = draw(st.sampled_from([val, val, near]))
+    # the individuals were evaluated by artap (signed costs filled in as Job.evaluate does) or only carry costs
+    signed = draw(st.booleans()) and all(c is not None for c in crit)
     tag_pool = draw(st.lists(st.integers(0, 12), min_size=1, max_size=5, unique=True))
     tag_mode = draw(st.sampled_from(["blocks", "shuffled", "single"]))
     inds = []
@@ -40,12 +47,12 @@ def record(draw):
             t = tag_pool[(i * len(tag_pool)) // max(k, 1)]
         else:
             t = draw(st.sampled_from(tag_pool))
-        inds.append({"v": [draw(val) for _ in range(n)], "c": [draw(val) for _ in range(m)], "t": t,
+        inds.append({"v": [draw(val) for _ in range(n)], "c": [draw(cval) for _ in range(m)], "t": t,
                      "front": draw(st.integers(1, 3))})
     q = {"pop": draw(st.sampled_from([-1] + tag_pool + [99])),
          "pi": draw(st.integers(0, n - 1)), "pj": draw(st.integers(0, n - 1)), "gi": draw(st.integers(0, m - 1)),
          "sorted": draw(st.booleans())}
-    return {"n": n, "m": m, "crit": crit, "inds": inds, "q": q}
+    return {"n": n, "m": m, "crit": crit, "inds": inds, "q": q, "signed": signed}
 
 
 def _build(case):
@@ -64,6 +71,8 @@ def _build(case):
         ind.costs = list(r["c"])
         ind.population_id = r["t"]
         ind.features["front_number"] = r["front"]
+        if case.get("signed"):
+            ind.calc_signed_costs(prob.signs)
         prob.individuals.append(ind)
     return prob
 
@@ -173,6 +182,11 @@ def _check_queries(case, prob, res):
                                     gi, case["crit"][gi], o.costs[gi], best, col))
         if case["crit"][q["gi"]] == "maximize":
             classes.append("maximised-goal")
+        if case.get("signed"):
+            classes.append("signed-costs")
+        col = [i.costs[q["gi"]] for i in inds]
+        if len(set(col)) > len(set(round(c, 7) for c in col)):
+            classes.append("ties-in-7th-decimal")
     # pareto front
     with guard("queries"):
         pf = res.pareto_front(q["pop"] if q["pop"] != -1 else None)
@@ -201,8 +215,13 @@ fl = st.floats(-1e3, 1e3, allow_nan=False).map(lambda x: round(x, 4))
 @st.composite
 def point_sets(draw):
     dim = draw(st.integers(1, 4))
-    kind = draw(st.sampled_from(["dyadic", "dyadic", "float"]))
-    c = dy if kind == "dyadic" else fl
+    kind = draw(st.sampled_from(["dyadic", "dyadic", "float", "offset"]))
+    if kind == "offset":
+        # fronts far from the origin compared with the spacing of their points (all sums exact in doubles)
+        off = draw(st.sampled_from([1e6, 1e9, -1e9, float(2 ** 40), 1e12]))
+        c = st.integers(-64, 64).map(lambda k: off + k / 8.0)
+    else:
+        c = dy if kind == "dyadic" else fl
     ref = draw(st.lists(st.lists(c, min_size=dim, max_size=dim), min_size=1, max_size=8))
     mode = draw(st.sampled_from(["independent", "subset", "identical", "shifted"]))
     d = None
@@ -240,14 +259,14 @@ def check_eps(case):
     with guard("epsilon_add"):
         e = float(epsilon_add([tuple(r) for r in ref], [tuple(c) for c in comp]))
     exp = O.eps_add_reference(ref, comp)
-    tol = 0.0 if case["kind"] == "dyadic" else 1e-9 * max(1.0, abs(exp))
+    tol = 0.0 if case["kind"] in ("dyadic", "offset") else 1e-9 * max(1.0, abs(exp))
     if not (e >= 0.0) or abs(e - exp) > tol:
         raise Violation("epsilon_add", "eps-value", "epsilon_add(%r, %r) = %r, max-min-max = %r" % (ref, comp, e, exp))
     if case["mode"] == "identical" and e != 0.0:
         raise Violation("epsilon_add", "eps-identical-nonzero", "identical sets give %r" % (e,))
     if case["mode"] == "shifted":
         d = case["d"]
-        if abs(e - d) > (0.0 if case["kind"] == "dyadic" else 1e-9 * max(1.0, d)):
+        if abs(e - d) > (0.0 if case["kind"] in ("dyadic", "offset") else 1e-9 * max(1.0, d)):
             raise Violation("epsilon_add", "eps-shift", "reference %r shifted by %r gives %r" % (ref, d, e))
     dominated_ref = any(all(a < b for a, b in zip(r2, r1)) for r1 in ref for r2 in ref)
     cls = [case["mode"], case["kind"]]
